@@ -3,8 +3,8 @@
    What is proved here is the *reduction*: on a case where the model agrees with the implementation,
      - C02 holds of the observed output whenever the parse model predicts Ok and no value type that passes through
        wirm's DataType is in the known class D10 (decided with the generated conversion tables);
-     - every failure of C02 / C01 on an agreeing, modelled case lies in a known class (90x parse panic, 10x D10) or the
-       parse model predicts Err;
+     - every failure of C02 / C01 on an agreeing, modelled case lies in a known class (10x D10) or the parse model
+       predicts Err (the parse model never predicts a panic);
      - C01 holds whenever C02's content equality holds on a valid input.
    What is NOT proved: that Module::encode re-emits every section faithfully (there is no Gallina model of
    encode_internal's emission; that half is the differential run on decoded forms), and that validity depends only
@@ -66,11 +66,13 @@ Proof.
     + unfold known_rt. intro E. apply app_eq_nil in E. destruct E as [_ E]. exact (d10_in_classes c D E).
     + rewrite (checker_sound02 c A P D) in H. discriminate.
   - left; reflexivity.
-  - right. unfold known_rt, parse_class. rewrite P.
-    assert (K : In k known_panic_sites) by (unfold pred_parse in P; exact (parse_glue_panics_known _ _ _ P)).
-    apply mem_N_In in K. rewrite K. discriminate.
+  - exfalso. unfold pred_parse in P. exact (parse_glue_never_panics _ _ _ P).
   - cbn [outcome_eqb] in M. discriminate.
 Qed.
+
+(* the parse model never predicts a panic: a valid module is parsed or rejected *)
+Theorem pred_parse_never_panics : forall c k, pred_parse c <> OPanic k.
+Proof. intros c k. unfold pred_parse. apply parse_glue_never_panics. Qed.
 
 (* ---- C01 ---- *)
 Theorem checker_sound01 : forall c, agree01 c = true -> pred_parse c = OOk -> rc_in_valid c = true -> content_equal c = true ->
